@@ -181,6 +181,10 @@ def get_offset(idx, strides):
 
 
 def bound_check(index, shape):
+    if len(index) > len(shape):
+        raise IndexError(
+            f"index {index} has more entries than the axes of {shape}"
+        )
     for ii, ss in zip(index, shape):
         if ii < 0 or ii >= ss:
             raise IndexError(f"index {index} outside shape {shape}")
